@@ -393,3 +393,58 @@ def index_scenario(rng, size='quick', **over):
     lines += ['restart', 'states', 'res'] + qs[:20]
     lines += [f'w {nat_key(klen, present[0])} 9 - 1 {seed % 250 + 1}', 'states', 'close_active', 'states', 'settle', 'indexsum', 'counts'] + qs[:10]
     return lines
+
+
+def filter_scenario(rng, size='quick', **over):
+    """C10: (1) the bloom filter type driven directly (adds, probes, merge, serialized image, file probe, off-load,
+    reload; bit counts incl. 0, 64, not multiples of 64; 0..4 hashers) compared bit for bit with the model;
+    (2) storage-level: histories with close/restore/delete-in-closed/offload(level)/restart for group sizes 2..9 and
+    check_filters / check_filter for every stored key after every step"""
+    group = rng.choice([2, 2, 3, 4, 5, 8, 9])
+    bloom = rng.choice(['off', '100,2,1000', '50,3,127', '10,1,64', '20,4,65', '1000,2,8388608', '10,0,100', '10,2,0'])
+    c, line = cfg_line(rng, dup=1, group=group, bloom=bloom, **over)
+    klen = c['key']
+    lines = [line, 'states']
+    # part 1: direct protocol
+    el, k, mb = rng.choice([(100, 2, 1000), (50, 3, 127), (10, 1, 64), (20, 4, 65), (10, 0, 100), (10, 2, 0), (1000, 2, 100000)])
+    lines.append(f'bloom new {el} {k} {mb}')
+    lines.append(f'bloom2 new {el} {k} {mb}' if rng.random() < 0.7 else f'bloom2 new {el + 1} {k} {mb + 64}')
+    added = []
+    for _ in range(rng.randint(3, 10) if size == 'quick' else rng.randint(5, 30)):
+        kl = rng.choice([1, 4, 8, 9, 16, 17, 33])
+        kh = bytes(rng.randrange(256) for _ in range(kl)).hex()
+        which = rng.choice(['bloom', 'bloom', 'bloom2'])
+        lines.append(f'{which} add {kh}')
+        added.append(kh)
+        if rng.random() < 0.3:
+            lines.append(f'bloom has {rng.choice(added)}')
+            lines.append(f'bloom has {bytes(rng.randrange(256) for _ in range(kl)).hex()}')
+    lines += ['bloom raw', 'bloom merge', 'bloom raw']
+    for kh in added[:6]:
+        lines += [f'bloom has {kh}', f'bloom probe {kh}']
+    lines += [f'bloom probe {bytes(rng.randrange(256) for _ in range(5)).hex()}', 'bloom offload', f'bloom has {added[0]}',
+              f'bloom probe {added[0]}', 'bloom reload', f'bloom has {added[0]}', 'bloom raw']
+    # part 2: storage level
+    keys = mk_keys(rng, klen, rng.randint(3, 6))
+    absent = absent_keys(rng, klen, keys)
+    seed = 1
+    n = rng.randint(8, 20) if size == 'quick' else rng.randint(15, 60)
+    for _ in range(n):
+        x = rng.random()
+        if x < 0.4:
+            lines.append(f'w {rng.choice(keys)} {rng.choice(TS_POOL)} - {rng.choice([0, 5])} {seed % 250 + 1}')
+            seed += 1
+        elif x < 0.5:
+            lines.append(f'd {rng.choice(keys)} {rng.choice(TS_POOL)} - {rng.choice([0, 1])}')
+        elif x < 0.75:
+            lines.append(rng.choice(['close_active', 'restore_active', 'create_active', 'force always', 'force always']))
+        elif x < 0.85:
+            lines.append('settle')
+        elif x < 0.95:
+            lines.append(f'offload {rng.choice([1, 1000, 100000000])} {rng.choice([0, 1, 2])}')
+        else:
+            lines.append(rng.choice(['restart', 'restart lazy']))
+        lines.append('states')
+        for kk in keys + absent[:1]:
+            lines += [f'cf {kk}', f'cfs {kk}', f'c {kk}']
+    return lines
